@@ -175,3 +175,32 @@ theorem deliversO (Γ : Group G) (valid : G → Bool) (kdf : G → Nat → Label
     simp only [if_true] at hm ⊢
     rw [hm, xor_cancel]
 end Mpc.Co
+
+/-! ### Old and new helper models agree where the new checks pass
+
+`Co.encrypt`/`Co.decrypt` (used by Model/Sha2pcRounds.lean, which performs the
+on-curve checks of 68f93f2 / 0e7671a itself) versus the HEAD-shaped
+`Co.encryptO`/`Co.decryptO` at `Γ.ops`. -/
+namespace Mpc.Co
+open Mpc.Iknp (Label)
+variable {G : Type}
+
+theorem senderSetupO_ops (Γ : Group G) (g : G) (a : Nat) : senderSetupO Γ.ops g a = senderSetup Γ g a := rfl
+
+theorem choicePointO_ops (Γ : Group G) (g A : G) (b : Nat) (bit : Bool) :
+    choicePointO Γ.ops g A b bit = choicePoint Γ g A b bit := rfl
+
+theorem encryptO_eq_encrypt (Γ : Group G) (valid : G → Bool) (kdf : G → Nat → Label) (s : SenderSetup G)
+    (n : Nat) (points : Nat → G) (wires : Nat → Wire) (hI : valid s.AaInv = true) :
+    encryptO Γ.ops valid kdf s n points wires = encrypt Γ valid kdf s n points wires := by
+  unfold encryptO encrypt
+  simp only [hI, Bool.not_true, Bool.false_eq_true, if_false]
+  rfl
+
+theorem decryptO_eq_decrypt (Γ : Group G) (valid : G → Bool) (kdf : G → Nat → Label) (A : G) (n : Nat)
+    (scalars : Nat → Nat) (bits : Nat → Bool) (data : List Wire) (hA : valid A = true) :
+    decryptO Γ.ops valid kdf A n scalars bits data = some (decrypt Γ kdf A n scalars bits data) := by
+  unfold decryptO decrypt
+  simp only [hA, Bool.not_true, Bool.false_eq_true, if_false]
+  rfl
+end Mpc.Co
